@@ -120,15 +120,23 @@ def const(src, name):
     if not m: raise SystemExit(f"translator: constant `{name}` not found or not a plain usize literal")
     return f"def {name} : Nat := {int(m.group(1).replace('_', ''))}\n"
 
+def peer_buffer(src):
+    """the capacity of the per-peer buffer `init_channel` creates for MPC messages that the engine has not consumed yet"""
+    _, _, body = extract_fn(src, 'init_channel')
+    caps = re.findall(r'mpsc::channel\s*\(([^)]*)\)', body)
+    if len(caps) != 1 or not re.fullmatch(r'[0-9_]+', caps[0].strip()): raise SystemExit(f"translator: init_channel must create its per-peer buffers with one literal capacity, found {caps}")
+    return f"def mpcPeerBufferSlots : Nat := {int(caps[0].replace('_', ''))}\n"
+
 def main(repo):
     parser = Lark(GRAMMAR, parser='earley')
-    faand = open(f"{repo}/src/mpc/faand.rs").read(); proto = open(f"{repo}/src/mpc/protocol.rs").read(); kos = open(f"{repo}/src/ot_core/kos.rs").read()
-    out = [f"-- GENERATED by translator/rs2lean_nat.py from {repo}/src/mpc/faand.rs, src/mpc/protocol.rs, src/ot_core/kos.rs — do not edit",
+    state = open(f"{repo}/crates/polytune-server-core/src/state.rs").read(); faand = open(f"{repo}/src/mpc/faand.rs").read(); proto = open(f"{repo}/src/mpc/protocol.rs").read(); kos = open(f"{repo}/src/ot_core/kos.rs").read()
+    out = [f"-- GENERATED by translator/rs2lean_nat.py from {repo}/src/mpc/faand.rs, src/mpc/protocol.rs, src/ot_core/kos.rs, crates/polytune-server-core/src/state.rs — do not edit",
            "namespace PolytuneModel.Gen", const(faand, 'RHO'), const(kos, 'SSP'),
            translate(parser, faand, 'bucket_size', 'bucketSize'),
            translate(parser, proto, 'chunk_size_iter', 'chunkSizeIter'),
            translate(parser, proto, 'random_shares_batch_size', 'randomSharesBatchSize'),
            translate(parser, proto, 'and_share_batch_size', 'andShareBatchSize'),
+           peer_buffer(state),
            "end PolytuneModel.Gen"]
     print('\n'.join(out))
 
